@@ -538,7 +538,7 @@ Theorem pipeline_spec lbreak lazy wrl rm limit batch (scripts : list script) :
   streams_sorted streams ->
   min_run streams (lt_merge lcmp wlen streams) ->
   exists frames,
-    proxy_series lcmp ckey keqb cleb wlen lbreak lazy wrl false rm limit batch scripts = Some frames
+    proxy_series lcmp ckey keqb cleb wlen lbreak lazy wrl false false rm limit batch scripts = Some frames
     /\ let outs := sers (unbatch frames) in
        let ins := concat (map (presented wrl rm) scripts) in
        StronglySorted llt (map fst outs)
